@@ -2,7 +2,8 @@
 # refusal leaves the store untouched, no expect() can fail given the allocator contract (assumed: out of reach, C12)
 import re
 import vlib
-from units import broker_common, takeover
+import json, os
+from units import broker_common, takeover, chunk_init
 
 SPEC = '''
 pub struct InvalidClusterName;
@@ -12,7 +13,14 @@ impl<'b> core::convert::TryFrom<&'b str> for ClusterName {
 }
 impl Clone for ClusterName { #[verifier::external_body] fn clone(&self) -> (r: Self) ensures r == *self { unimplemented!() } }
 #[verifier::external_body] pub struct NonZeroUsize { x: usize }   // std::num::NonZeroUsize, opaque
-impl NonZeroUsize { #[verifier::external_body] fn new(n: usize) -> (r: Option<NonZeroUsize>) ensures r is Some <==> n != 0 { unimplemented!() } }
+pub uninterp spec fn nz_val(n: NonZeroUsize) -> usize;
+impl NonZeroUsize { #[verifier::external_body] fn new(n: usize) -> (r: Option<NonZeroUsize>) ensures r is Some <==> n != 0, r matches Some(v) ==> nz_val(v) == n { unimplemented!() } }
+// consecutive non-empty blocks starting at slot 0 and ending at slot 16383, one per master, no migration entry (the with_slots clause of proxy_resource_to_chunk_store)
+pub open spec fn new_partition(cs: Seq<ChunkStore>) -> bool {
+    (forall|c: int| 0 <= c < cs.len() ==> (#[trigger] cs[c]).migrating_slots[0]@.len() == 0 && cs[c].migrating_slots[1]@.len() == 0 && cs[c].role_position == ChunkRolePosition::Normal)
+    && exists|avg: int, rem: int| 1 <= avg && 0 <= rem && start_of(0, avg, rem) == 0 && #[trigger] start_of(2 * (cs.len() as int), avg, rem) == 16384
+        && forall|c: int, p: int| 0 <= c < cs.len() && 0 <= p < 2 ==> half_is((#[trigger] cs[c].stable_slots[p]), start_of(2 * c + p, avg, rem), start_of(2 * c + p + 1, avg, rem) - 1)
+}
 pub open spec fn resources_registered(s: MetaStore, arr: Seq<[ProxyResource; CHUNK_PARTS]>) -> bool {
     forall|c: int, k: int| 0 <= c < arr.len() && 0 <= k < 2 ==> s.all_proxies@.contains_key(#[trigger] arr[c][k].proxy_address)
 }
@@ -23,23 +31,29 @@ pub open spec fn chunks_registered(dom: Set<String>, chunks: Seq<ChunkStore>) ->
 
 def build(U):
     broker_common.head(U)
-    U.add(broker_common.types(U).replace('use std::num::NonZeroUsize;', ''))
+    T = broker_common.types(U).replace('use std::num::NonZeroUsize;', '')
+    T = T.replace('pub struct RangeList(Vec<Range>);', 'pub struct RangeList(pub Vec<Range>);').replace('pub struct Range(usize, usize);', 'pub struct Range(pub usize, pub usize);')
+    U.add(T)
     U.prelude('epoch_spec.rs')
+    U.prelude('range_spec.rs')
+    U.add(chunk_init.SPEC)
     U.add(SPEC)
+    ov = json.load(open(os.path.join(vlib.VERIF, 'contracts', 'proxy_resource_to_chunk_store.overlay.json')))
+    chunk_header = [op for op in ov['ops'] if op['op'] == 'header'][0]['text']
     U.add('impl MetaStore {\n')
     U.add_fn(takeover.bump_global_epoch(U))
     U.add("}\n" + takeover.UPDATE_STRUCT + "impl<'a> MetaStoreUpdate<'a> {\n")
-    U.add('''    // allocator: out of reach (nested HashMap<String, ..> with max_by_key / min_by closures, see C12); assumed: pure (&self) and
-    // returns only registered proxies
+    U.add('''    // allocator: out of reach (nested HashMap<String, ..> with max_by_key / min_by closures, see C12); assumed: pure (&self), returns
+    // only registered proxies, and as many chunks as asked for (two proxies per chunk)
     #[verifier::external_body] fn generate_free_chunks(&self, expected_num: NonZeroUsize) -> (r: Result<Vec<[ProxyResource; CHUNK_PARTS]>, MetaStoreError>)
-        ensures r matches Ok(v) ==> resources_registered(*old(self.store), v@)
+        ensures r matches Ok(v) ==> resources_registered(*old(self.store), v@) && v@.len() * 2 == nz_val(expected_num)
     { unimplemented!() }
     #[verifier::external_body] fn generate_free_chunks_for_ordered_proxy_index(&self, expected_num: NonZeroUsize, start_index: usize) -> (r: Result<Vec<[ProxyResource; CHUNK_PARTS]>, MetaStoreError>)
-        ensures r matches Ok(v) ==> resources_registered(*old(self.store), v@)
+        ensures r matches Ok(v) ==> resources_registered(*old(self.store), v@) && v@.len() * 2 == nz_val(expected_num)
     { unimplemented!() }
-    // proved in unit chunk_init (chunk_of: chunk c names the proxies / hosts / nodes of resource c); here the part this unit needs
-    #[verifier::external_body] fn proxy_resource_to_chunk_store(proxy_resource_arr: Vec<[ProxyResource; CHUNK_PARTS]>, with_slots: bool) -> (r: Vec<ChunkStore>)
-        ensures r@.len() == proxy_resource_arr@.len(), forall|c: int, k: int| 0 <= c < r@.len() && 0 <= k < 2 ==> #[trigger] r@[c].proxy_addresses[k] == proxy_resource_arr@[c][k].proxy_address
+    // proved in unit chunk_init on the real text; the contract text (precondition included) is the header of contracts/proxy_resource_to_chunk_store.overlay.json
+    #[verifier::external_body]
+    ''' + chunk_header.rstrip().rstrip(',') + '''
     { unimplemented!() }
 ''')
     X = U.src('src/broker/update.rs')
@@ -53,12 +67,18 @@ def build(U):
     ) -> (r: Result<(), MetaStoreError>)
         requires inv_epoch(*old(self).store), old(self).store.global_epoch < u64::MAX,
             vstd::std_specs::hash::obeys_key_model::<ClusterName>(), vstd::std_specs::hash::obeys_key_model::<String>(),
+            // the new cluster has at most 8192 chunks (precondition of proxy_resource_to_chunk_store: one slot per master at least)
+            node_num <= 32768,
         ensures epoch_contract(*old(self).store, *final(self).store),
             r is Err ==> store_same(*old(self).store, *final(self).store),
             r is Ok ==> exists|k: ClusterName| #![trigger final(self).store.clusters@[k]] !old(self).store.clusters@.contains_key(k) && final(self).store.clusters@.contains_key(k)
-                && final(self).store.clusters@[k].epoch == final(self).store.global_epoch && final(self).store.clusters@[k].config == default_cluster_config,''')
-    f.after('let chunk_stores = Self::proxy_resource_to_chunk_store(proxy_resource_arr, true);',
-            "        proof { assert(chunks_registered(self.store.all_proxies@.dom(), chunk_stores@)); }")
+                && final(self).store.clusters@[k].epoch == final(self).store.global_epoch && final(self).store.clusters@[k].config == default_cluster_config
+                // C01 base case at the mutator: the new cluster has node_num / 4 chunks without migration entries whose stable halves are an exact partition of the 16384 slots
+                && final(self).store.clusters@[k].chunks@.len() == node_num / 4 && new_partition(final(self).store.clusters@[k].chunks@),''')
+    f.before('let chunk_stores = Self::proxy_resource_to_chunk_store(proxy_resource_arr,',
+            "        let ghost arr = proxy_resource_arr@;\n        proof { assert(arr.len() * 2 == node_num / 2); assert(1 <= arr.len() <= 8192); }")
+    f.after('let chunk_stores = Self::proxy_resource_to_chunk_store(proxy_resource_arr,',
+            "        proof { assert forall|c: int, k: int| 0 <= c < chunk_stores@.len() && 0 <= k < 2 implies self.store.all_proxies@.dom().contains(#[trigger] chunk_stores@[c].proxy_addresses[k]) by { assert(chunk_of(arr[c], chunk_stores@[c])); assert(self.store.all_proxies@.contains_key(arr[c][k].proxy_address)); } assert(chunks_registered(self.store.all_proxies@.dom(), chunk_stores@)); }")
     f.after('let epoch = self.store.bump_global_epoch()', "        let ghost s1 = *self.store;\n        let ghost cn = cluster_name;")
     INV = ("self.store.all_proxies@.dom() == s1.all_proxies@.dom(), self.store.clusters@ == s1.clusters@, self.store.global_epoch == s1.global_epoch,\n"
            "                    self.store.failed_proxies@ == s1.failed_proxies@, self.store.failures@ == s1.failures@, self.store.version == s1.version,\n"
@@ -66,10 +86,11 @@ def build(U):
     f.loop_spec(0, "                invariant " + INV, itname='itc')
     f.loop_spec(1, "                    invariant " + INV + "\n                    0 <= itc.index@ < cluster_store.chunks@.len(), *chunk == cluster_store.chunks@[itc.index@ as int],", itname='itp')
     f.before('let proxy = self', "                proof { axiom_key_of_same::<String>(proxy_address); assert(*proxy_address == chunk.proxy_addresses[itp.index@ as int]); }")
-    f.before('Ok(())', "        proof { assert(self.store.clusters@.contains_key(cn)); assert(!old(self).store.clusters@.contains_key(cn)); assert(self.store.clusters@[cn].epoch == self.store.global_epoch); assert(self.store.clusters@[cn].config == default_cluster_config); }", nth=None)
+    f.after('let epoch = self.store.bump_global_epoch()', "        proof { assert forall|c: int| 0 <= c < chunk_stores@.len() implies (#[trigger] chunk_stores@[c]).migrating_slots[0]@.len() == 0 && chunk_stores@[c].migrating_slots[1]@.len() == 0 && chunk_stores@[c].role_position == ChunkRolePosition::Normal by { assert(chunk_of(arr[c], chunk_stores@[c])); } assert(new_partition(chunk_stores@)); }\n        let ghost cs_new = chunk_stores@;")
+    f.before('Ok(())', "        proof { assert(self.store.clusters@.contains_key(cn)); assert(!old(self).store.clusters@.contains_key(cn)); assert(self.store.clusters@[cn].epoch == self.store.global_epoch); assert(self.store.clusters@[cn].config == default_cluster_config); assert(self.store.clusters@[cn].chunks@ == cs_new); }", nth=None)
     U.add_fn(f)
     U.add("}\n} // verus!\nfn main() {}\n")
-    U.trust('generate_free_chunks* (allocator, C12) by assumed contract: pure, returns only registered proxies; proxy_resource_to_chunk_store through the part of its contract proved in unit chunk_init (chunk c names the proxies of resource c)',
+    U.trust('generate_free_chunks* (allocator, C12) by assumed contract: pure, returns only registered proxies and exactly the number of chunks asked for; proxy_resource_to_chunk_store through its contract proved in unit chunk_init (text, precondition included, imported); precondition node_num <= 32768',
             'NonZeroUsize::new by shim (Some iff n != 0)')
 
 MUST_FAIL = '''
